@@ -199,6 +199,12 @@ BASE_TEMPLATES = [
     ('{{[#B][#A{ann}]}}', 1, ['B', 'A']),
     ('{{[#B]=[#A{ann}]1([#C])[#B].[#C]1}}', 1, ['B', 'A', 'C', 'B', 'C']),
     ('{{[#A{ann}]|2[#B]}}', 0, ['A', 'A', 'B']),     # both copies are annotated
+    # multiplied branches: every copy of the anchor / of a node inside the branch is the annotated node written once
+    ('{{[#A{ann}]([#B])|2}}', 0, ['A', 'B', 'A', 'B']),
+    ('{{[#B]([#A{ann}])|3}}', 1, ['B', 'A', 'B', 'A', 'B', 'A']),
+    ('{{[#C][#A{ann}]([#B][#B])|2[#C]}}', 1, ['C', 'A', 'B', 'B', 'A', 'B', 'B', 'C']),
+    ('{{[#C]([#A{ann}]|2)|2}}', 1, ['C', 'A', 'A', 'C', 'A', 'A']),
+    ('{{[#C]([#B][#A{ann}])|2[#B]}}', 2, ['C', 'B', 'A', 'C', 'B', 'A', 'B']),
 ]
 FRAGS_AT = '{#A=[$]CC[$],#B=[$]CO[$],#C=[$]CN[$]}'
 
@@ -263,7 +269,7 @@ def gen_base_read(max_free, templates, thin=1, pool=FREE, need=None):
                 continue
             entries = (1 if q else 0) + (1 if w else 0) + len(free)
             for t, (tmpl, idx, names) in enumerate(templates):
-                if t > 0 and n % 5 != t:      # the other placements for a fifth of the forms each
+                if t > 0 and n % 4 != (t - 1) % 4:      # the other placements for a quarter of the forms each
                     continue
                 exp = []
                 for i, nm in enumerate(names):
